@@ -401,6 +401,43 @@ fn color_case(c: [f32; 3], r: &mut Report) {
     if !(err <= tol) { r.violation(key("f32-rgb-roundtrip"), format!("[{CFG_NAME}] rgb{c:?} -> hsl{h:?} -> rgb{back:?}: error {err} > {tol}"), case()); } else if !(c[0] == c[1] && c[1] == c[2]) { r.nontrivial(); }
 }
 
+/// C09 in this float configuration: orient_y/orient_z (which normalise through the configuration's reciprocal square
+/// root) and the axis rotations (its sine/cosine) must still be rotations.
+#[cfg(not(feature = "cfg_none"))]
+fn xform_case(i: u64, r: &mut Report) {
+    use re::math::angle::degs;
+    use re::math::mat::{orient_y, orient_z, rotate_x, rotate_y, rotate_z, Mat4x4, RealToReal};
+    use re::math::vec::vec3;
+    r.eval();
+    let tol = if cfg!(feature = "cfg_mm") { 8e-3 } else { 2e-5 };
+    let dirs: [[f32; 3]; 7] = [[0.0, 1.0, 0.0], [1.0, 2.0, 3.0], [-1.0, 1.0, 0.5], [0.3, 0.1, 1.0], [0.0, 0.0, -2.0], [5.0, -0.1, 0.2], [1e-3, 1.0, 1e-3]];
+    let (a, b, kind) = (dirs[(i % 7) as usize], dirs[(i / 7 % 7) as usize], i / 49);
+    let name = ["orient_y", "orient_z", "rotate_x", "rotate_y", "rotate_z"][kind as usize];
+    let ang = (i % 49) as f32 * 7.5 - 180.0;
+    let case = || obj! {"kind" => "xform", "i" => i};
+    let m: Result<Mat4x4<RealToReal<3>>, String> = caught(|| {
+        let n = |v: [f32; 3]| vec3::<f32, ()>(v[0], v[1], v[2]).normalize();
+        match kind { 0 => orient_y(n(a), n(b).to()), 1 => orient_z(n(a), n(b).to()), 2 => rotate_x(degs(ang)), 3 => rotate_y(degs(ang)), _ => rotate_z(degs(ang)) }
+    });
+    let m = match m { Ok(m) => m, Err(p) => { if kind < 2 && a == b { return; } r.violation(format!("xform-panic|{CFG_NAME}|{name}|{i}"), format!("[{CFG_NAME}] {name} panicked: {p}"), case()); return; } };
+    if kind < 2 { let c = [a[1] * b[2] - a[2] * b[1], a[2] * b[0] - a[0] * b[2], a[0] * b[1] - a[1] * b[0]]; if c.iter().map(|x| x * x).sum::<f32>() < 1e-6 { return; } } // parallel inputs: no frame defined
+    let d: [[f64; 4]; 4] = m.0.map(|row| row.map(|x| x as f64));
+    let det = d[0][0] * (d[1][1] * d[2][2] - d[1][2] * d[2][1]) - d[0][1] * (d[1][0] * d[2][2] - d[1][2] * d[2][0]) + d[0][2] * (d[1][0] * d[2][1] - d[1][1] * d[2][0]);
+    let mut worst = (det - 1.0).abs();
+    for x in 0..3 { for y in 0..3 { let dot: f64 = (0..3).map(|k| d[k][x] * d[k][y]).sum(); worst = worst.max((dot - if x == y { 1.0 } else { 0.0 }).abs()); } }
+    if !(worst <= tol) { r.violation(format!("rotation-orthonormal|{CFG_NAME}|{name}|{i}"), format!("[{CFG_NAME}] {name} is not a rotation: deviation {worst:.3e} from orthonormal / det 1 (bound {tol}); matrix {:?}", m.0), case()); } else { r.nontrivial(); }
+}
+
+#[cfg(not(feature = "cfg_none"))]
+fn run_xform(cfg: &Cfg) -> ! {
+    let mut rep = Report::new();
+    rep.set("configuration", CFG_NAME);
+    rep.merge(par_range(cfg, 49 * 5, xform_case));
+    rep.sample(0, || obj! {"configuration" => CFG_NAME, "orient_y" => "new y = (1,2,3)/|..|, x hint = (-1,1,0.5)/|..|"});
+    let rule = format!("configuration {CFG_NAME}: orient_y and orient_z over all ordered pairs of 7 directions (non-perpendicular hints included; parallel pairs skipped), rotate_x/y/z over 49 angles: determinant 1 and orthonormal columns within the backend's accuracy class (2e-5; micromath 8e-3). non-trivial = matrix judged.");
+    rep.finish(cfg, "exploration", &rule, &["accuracy class per backend as in C20"]);
+}
+
 fn run_color(cfg: &Cfg) -> ! {
     let mut rep = Report::new();
     rep.set("configuration", CFG_NAME);
@@ -420,6 +457,8 @@ fn replay_case(case: &J, r: &mut Report) {
     match s("kind").as_str() {
         "fn1" => match lookup_fn1(&s("backend"), &s("name")) { Some(f) => check1(&s("backend"), &f, fb("x"), r, None), None => { eprintln!("MACHINERY-ERROR backend {} not in this configuration", s("backend")); std::process::exit(2) } },
         "rem" => { let f: fn(f32, f32) -> f32 = match s("backend").as_str() { "fallback" => float::fallback::rem_euclid, #[cfg(feature = "cfg_mm")] "mm" => float::mm::rem_euclid, #[cfg(feature = "cfg_libm")] "libm" => float::libm::rem_euclid, _ => std::process::exit(2) }; check_rem(&s("backend"), f, fb("x"), fb("m"), r) }
+        #[cfg(not(feature = "cfg_none"))]
+        "xform" => xform_case(case.get("i").unwrap().as_u64().unwrap(), r),
         "color" => { let a = case.get("c").unwrap().as_arr().unwrap(); color_case([parse_fbits(&a[0]).unwrap(), parse_fbits(&a[1]).unwrap(), parse_fbits(&a[2]).unwrap()], r) }
         "tri" => { let v: Vec<i32> = case.get("t").unwrap().as_arr().unwrap().iter().map(|x| x.as_i64().unwrap() as i32).collect(); tri_cover([(v[0], v[1]), (v[2], v[3]), (v[4], v[5])], r) }
         "tex" => { let mut rr = Report::new(); tex_repeat(&mut rr); let want = format!("u={}|v={}", fb("u"), fb("v")); for (k, v) in rr.viols { if k.contains(&want) { r.violation(k, v.what, v.case); } } }
@@ -439,9 +478,11 @@ fn replay_case(case: &J, r: &mut Report) {
 
 fn main() {
     if std::env::var("VERIF_DEBUG_PANIC").is_err() { std::panic::set_hook(Box::new(|_| {})); }
-    let cfg = Cfg::from_args(|s| if s.starts_with("color") { "C16".into() } else { "C20".into() });
+    let cfg = Cfg::from_args(|s| if s.starts_with("color") { "C16".into() } else if s.starts_with("xform") { "C09".into() } else { "C20".into() });
     if cfg.replay.is_some() { replay_main(&cfg, replay_case); }
     if cfg.part.starts_with("color") { run_color(&cfg); }
+    #[cfg(not(feature = "cfg_none"))]
+    if cfg.part.starts_with("xform") { run_xform(&cfg); }
     let mut rep = Report::new();
     rep.set("configuration", CFG_NAME);
     // module sweeps: each backend module is swept in the configuration that selects it
